@@ -1219,7 +1219,9 @@ impl<'a, 'b> Gen<'a, 'b> {
     /// the value of a let/assign binding: now and then itself a binding form (binding forms
     /// nested in binding values go through their own renaming and hoisting paths)
     fn gen_binding_value(&mut self, t: &Ty, scope: &Scope, depth: usize) -> Expr {
-        if depth >= 1 && self.let_depth < self.let_limit && !matches!(t, Ty::Fun(_, _)) && self.c.chance(50) {
+        // (one level only: compile time grows steeply with the nesting of binding forms -- a 700-byte
+        // program with four levels takes the compiler seconds -- and the per-case budget is finite)
+        if depth >= 1 && self.let_depth + 1 < self.let_limit && self.let_depth <= 1 && !matches!(t, Ty::Fun(_, _)) && self.c.chance(36) {
             self.feat("binding-form-in-binding-value");
             self.let_depth += 1;
             let e = if self.cfg.allow_assign && self.c.chance(100) { self.gen_assign(t, scope, depth) } else if self.cfg.allow_let { self.gen_let(t, scope, depth) } else { self.gen_expr(t, scope, depth) };
